@@ -81,8 +81,18 @@ def do_import(outdir, prop, k, name):
     return 0
 
 
-def do_run(names, tier, props=None):
+import threading
+
+_GIT = threading.Lock()
+
+
+def do_run(names, tier, props=None, jobs=1):
     names = names or sorted(os.listdir(SEEDED))
+    if jobs > 1:
+        from concurrent.futures import ThreadPoolExecutor
+        with ThreadPoolExecutor(jobs) as ex:
+            list(ex.map(lambda n: do_run([n], tier, props), names))
+        return
     for name in names:
         d = os.path.join(SEEDED, name)
         mpath = os.path.join(d, "meta.json")
@@ -91,7 +101,8 @@ def do_run(names, tier, props=None):
         m = json.load(open(mpath, encoding="utf8"))
         targets = props or m.get("checked_by", [m["property"]])
         try:
-            tmp, wt = scratch(os.path.join(d, "patch.diff"))
+            with _GIT:
+                tmp, wt = scratch(os.path.join(d, "patch.diff"))
         except RuntimeError as e:
             print("%-40s PATCH-STALE %s" % (name, str(e)[:100]))
             continue
@@ -108,7 +119,8 @@ def do_run(names, tier, props=None):
             m["check_results"] = dict(m.get("check_results", {}), **results)
             json.dump(m, open(mpath, "w", encoding="utf8"), indent=1, ensure_ascii=False)
         finally:
-            cleanup(tmp)
+            with _GIT:
+                cleanup(tmp)
 
 
 if __name__ == "__main__":
@@ -121,6 +133,7 @@ if __name__ == "__main__":
             tier = a[a.index("--tier") + 1]
             a = [x for x in a if x not in ("--tier", tier)]
         props = [x[7:] for x in a if x.startswith("--prop=")]
-        do_run([x for x in a[1:] if not x.startswith("--")], tier, props or None)
+        jobs = max([int(x[7:]) for x in a if x.startswith("--jobs=")] or [1])
+        do_run([x for x in a[1:] if not x.startswith("--")], tier, props or None, jobs)
     else:
         print(__doc__)
